@@ -76,10 +76,13 @@ def grammar_judge(chk, lang, verdict, fails, why, where='', counter=''):
 #  the plain assignment `Name = List[T]` and T is declared as a TypeVar): no entry; a 'py-grammar' complaint (assignment to a
 #  Subscript) or an import failure at such a statement ('py-import-at-generic-alias') is a plain violation again; the witness stays
 #  in WITNESSES with label None and must pass every judgement, the import of the module included)
+# (C10-scala-toplevel-alias - under a dotless Scala package neither `package object p {` nor `package p {` was printed, the type
+#  aliases stood at the top level of the compilation unit - was repaired in /repo (begin_package_object / begin_package always open a
+#  block named by the last segment of the package name): no entry, an 'sc-grammar' rejection under a dotless package is a plain
+#  violation again; the witness stays in WITNESSES with label None and must pass; dotless packages stay in configs())
 PREDICTS = {
     'C10-scala-default': {'scala-default', 'sc-grammar'},
     'C10-scala-keyword-name': {'sc-grammar'},
-    'C10-scala-toplevel-alias': {'sc-grammar'},
     'C10-scala-content-key': {'sc-grammar', 'identifier', 'template'},
     'C10-swift-label': {'swift-label', 'sw-grammar'},
     'C10-python-empty-union': {'py-syntax'},
@@ -712,7 +715,7 @@ def phase_folder(chk, n):
 WITNESSES = [
     ('scala', {'package': 'onepassword'}, '#[typeshare]\npub struct A { pub x: String }\n', None),
     ('scala', {'package': 'p'}, '#[typeshare]\npub struct A { pub x: i8 }\n#[typeshare]\npub enum E { U, V }\n', None),
-    ('scala', {'package': 'p'}, '#[typeshare]\npub type Al = Vec<u32>;\n#[typeshare]\npub struct A { pub x: u8 }\n#[typeshare]\npub enum E { U, V }\n', 'C10-scala-toplevel-alias'),
+    ('scala', {'package': 'p'}, '#[typeshare]\npub type Al = Vec<u32>;\n#[typeshare]\npub struct A { pub x: u8 }\n#[typeshare]\npub enum E { U, V }\n', None),
     ('scala', {'package': 'com.x'}, '#[typeshare]\npub struct S { pub r#type: String, pub val: u8 }\n', 'C10-scala-keyword-name'),
     ('scala', {'package': 'com.x'}, '#[typeshare]\n#[serde(tag = "t", content = "my-content")]\npub enum E { A(String), B { x: u8 } }\n', 'C10-scala-content-key'),
     ('scala', {'package': 'com.x'}, '#[typeshare]\npub struct A { #[serde(default)] pub x: String }\n', 'C10-scala-default'),
@@ -730,6 +733,13 @@ WITNESSES = [
     ('python', {}, '#[typeshare]\n#[serde(tag = "t", content = "c")]\npub enum G { #[serde(rename = "1a")] V(u8) }\n#[typeshare]\npub struct S { pub _1x: u8 }\n', 'C10-python-digit-name'),
     ('python', {}, '#[typeshare]\n#[serde(tag = "t", content = "c")]\npub enum G<T> { V(T) }\n#[typeshare]\npub type Al = Vec<G<u8>>;\n', 'C10-python-generic-enum-arg'),
 ]
+
+
+def fixed_witness_label(lang, src):
+    """the repaired class a witness with label None belongs to (only a name in the payload)"""
+    if lang == 'python':
+        return 'fixed:C10-python-generic-alias'
+    return 'fixed:C10-scala-toplevel-alias' if 'pub type' in src else 'fixed:C10-scala-package-brace'
 
 
 def lex_expectations(chk):
@@ -787,7 +797,7 @@ def run(chk):
     cfgs = configs(vf.core_version())
     drift = []
     # 1. one witness per finding class (and the witnesses of the repaired classes, which must pass), against the real code
-    wcases = [(l, c, s, {'witness': k or ('fixed:C10-python-generic-alias' if l == 'python' else 'fixed:C10-scala-package-brace')}) for l, c, s, k in WITNESSES]
+    wcases = [(l, c, s, {'witness': k or fixed_witness_label(l, s)}) for l, c, s, k in WITNESSES]
     good0 = chk.counters.get('good', 0)
     drift += judge(chk, wcases, 'witness')
     fixed_w = sum(1 for w in WITNESSES if w[3] is None)
@@ -795,7 +805,7 @@ def run(chk):
     if chk.counters['fixed_witnesses_passing'] != fixed_w and not chk.violations:
         # judge() reports a failing / classified witness itself; this catches the one it would skip (no output, outside dom)
         chk.violation('witness-fixed', {'expected': fixed_w, 'passing': chk.counters['fixed_witnesses_passing']},
-                      'a witness of a repaired class (C10-scala-package-brace, C10-python-generic-alias) is no longer generated, inside dom_C10, in no class and well-formed', no_input=True)
+                      'a witness of a repaired class (C10-scala-package-brace, C10-scala-toplevel-alias, C10-python-generic-alias) is no longer generated, inside dom_C10, in no class and well-formed', no_input=True)
     # 1b. the class that only the IR can reach (the parser rejects tag/content on an enum without data variants)
     empty = {'kind': 'enum', 'algebraic': True, 'tag': 't', 'content': 'c', 'id': ir.mk_id('E'), 'generics': [], 'comments': [], 'variants': [],
              'decorators': [], 'is_recursive': False, 'is_redacted': False}
